@@ -4,6 +4,7 @@
 //!   h2v selftest
 
 mod checks;
+mod eng_codec;
 mod eng_hpack;
 mod mockio;
 mod refmodel;
